@@ -1222,7 +1222,7 @@ def maxprinciple_clause(vals, model, num, limiter, cfl):
     import flowdyn.xnum as xnum, flowdyn.integration as ti, flowdyn.field as field, itertools
     ok = True
     lims = ["minmod", "vanalbada", "vanleer", "superbee"] if limiter == "all" else [limiter]
-    vals5 = [-2.0, -0.5, 0.3, 1.0, 3.0]
+    vals5 = [-2.0, -1.0, 0.3, 1.0, 3.0]
     for lim in lims:
         for a in ([1.5, -0.7] if model == "convection" else [None]):
             for integ in ("explicit", "rk2_heun", "rk3ssp"):
